@@ -12,7 +12,10 @@ time.monotonic scripted.  Per evaluation three things are obtained:
             (shrunk) as replay — except inside the narrow class of open finding F16,
   model     what the extracted Coq model CacheGuard.run_cached / run_ref answers (hit flag and
             Decision; props/C08.v proves run_cached = run_ref on key-safe requests) -> a difference
-            only there is a broken correspondence.
+            only there is a broken correspondence.  Histories whose guards have a ROLE RESOLVER
+            (StaticRoleResolver behind a switch, hierarchy edited / backend down and up between
+            evaluations) are answered by CacheGuardR.run_cachedR / run_refR (runner entries cg.runR /
+            cg.batchR of CacheGuardRRun.v) and judged the same way.
 
 Evaluations run through Guard.evaluate_async inside one event loop per shard process."""
 import asyncio
@@ -31,6 +34,8 @@ from c15 import patched_clock
 RUNNER = "cacheguard"
 THEOREMS = ["c08_invariant", "c08_transparent", "c08_transparent_key_safe", "c08_lru_any_capacity_ttl_clock",
             "c08_dict_cache", "c08_hit_rechecks_obligations", "c08_refuted_key_order"]
+THEOREMS_R = ["c08_transparent_with_resolver", "c08_with_resolver_lru", "c08_invariant_with_resolver",
+              "c08_cached_answer_with_resolver", "c08_key_holds_expanded_roles", "c08_with_resolver_same_oracle"]
 BIG = 64          # "large" capacity
 TTL = 2           # the positive cache_ttl used (seconds)
 PAST, BELOW = 3, 1
@@ -637,14 +642,59 @@ def run_impl(cases, after_fork=None):
 # --------------------------------------------------------------------------
 # model side
 # --------------------------------------------------------------------------
+RESOLVER_OPS = ("grant", "revoke", "down", "up")
+XS_SINGLE = 12    # resolver histories per run that are ALSO sent as single cg.runR lines (first model_run call with any)
+_XS_LEFT = [XS_SINGLE]
+
+
+def has_resolver(case):
+    return case["g1"].get("resolver") is not None or case["g2"].get("resolver") is not None
+
+
+def enc_resolver(rc):
+    """a guard's resolver configuration for the model: None | [down, graph]"""
+    return None if rc is None else [bool(rc.get("down")), rc.get("graph") or {}]
+
+
+def resolver_unmodelled(case):
+    """None when cg.runR can express the history's resolvers: per guard no resolver or make_resolver's
+    StaticRoleResolver behind a switch ({"graph": {role: [parent, ...]}, "down", "async"}), edited by grant / revoke /
+    down / up; subjects' roles lists of str.  Otherwise the reason (such a history stays judged on the implementation only)."""
+    strs = lambda l: isinstance(l, list) and all(isinstance(x, str) for x in l)  # noqa: E731
+    for g in (case["g1"], case["g2"]):
+        rc = g.get("resolver")
+        if rc is None:
+            continue
+        if not isinstance(rc, dict) or set(rc) - {"graph", "async", "down"}:
+            return "resolver-kind-not-in-model"
+        gr = rc.get("graph") or {}
+        if not (isinstance(gr, dict) and all(isinstance(k, str) and strs(v) for k, v in gr.items())):
+            return "resolver-graph-not-str"
+    for op in case["h"]:
+        if op[0] == "e":
+            roles = ((op[2].get("subject") or {}) if isinstance(op[2], dict) else {}).get("roles")
+            if not (roles is None or strs(roles)):
+                return "resolver-roles-not-str"
+        elif op[0] in ("grant", "revoke"):
+            if not (len(op) == 4 and isinstance(op[2], str) and isinstance(op[3], str)):
+                return "resolver-edit-not-str"
+        elif op[0] not in ("p", "c", "t", "down", "up"):
+            return "resolver-op-not-in-model"
+    return None
+
+
 def model_run(cases, sort, batch=250):
     """one cg.batch line per `batch` cases with the same fact table: policies and requests are sent once per line
-    (pool indices in the histories) because parsing dominates the model's cost.  -> decoded answer per case"""
+    (pool indices in the histories) because parsing dominates the model's cost.  Histories with a role resolver go
+    through cg.batchR (CacheGuardR: resolver configuration per guard, edit operations in the history), same answer
+    format; XS_SINGLE evenly spaced short ones (per run) are sent as single cg.runR lines too — they must give the batch's
+    answer, and single lines are what lib.extraction_crosscheck re-evaluates inside Coq.  -> decoded answer per case"""
     groups = {}
     for ix, case in enumerate(cases):
-        groups.setdefault(canon(case.get("facts") or []), []).append(ix)
+        groups.setdefault((canon(case.get("facts") or []), has_resolver(case)), []).append(ix)
     lines, owners = [], []
-    for _, ixs in sorted(groups.items()):
+    singles = []
+    for (_, withres), ixs in sorted(groups.items()):
         for i in range(0, len(ixs), batch):
             part = ixs[i:i + batch]
             pols, reqs, pix, rix = [], [], {}, {}
@@ -662,7 +712,7 @@ def model_run(cases, sort, batch=250):
                 spec = case["cache"]
                 mspec, mcopy = model_cache(spec)
                 g = lambda x: [bool(x["strict"]), intern(x["policy"], pols, pix), x["ttl"]]  # noqa: E731
-                h = []
+                h, hfull = [], []
                 for op in case["h"]:
                     if op[0] == "e":
                         h.append(["e", bool(op[1]), intern(op[2], reqs, rix)])
@@ -670,15 +720,39 @@ def model_run(cases, sort, batch=250):
                         h.append(["p", bool(op[1]), intern(op[2], pols, pix)])
                     elif op[0] == "c":
                         h.append(["c", bool(op[1])])
+                    elif op[0] in RESOLVER_OPS:
+                        h.append([op[0], bool(op[1])] + list(op[2:]))
                     else:
                         h.append(["t", op[1]])
-                enc_cases.append([mspec, mcopy, g(case["g1"]), g(case["g2"]), h])
-            lines.append(lib.model_call("cg.batch", bool(sort), cases[part[0]].get("facts") or [], pols, reqs, enc_cases))
+                    hfull.append([op[0], bool(op[1]), op[2]] if op[0] in ("e", "p") else h[-1])
+                if withres:
+                    r1, r2 = enc_resolver(case["g1"].get("resolver")), enc_resolver(case["g2"].get("resolver"))
+                    enc_cases.append([mspec, mcopy, g(case["g1"]), g(case["g2"]), r1, r2, h])
+                    if len(case["h"]) <= 3:
+                        singles.append((j, (mspec, mcopy, r1, r2, hfull)))
+                else:
+                    enc_cases.append([mspec, mcopy, g(case["g1"]), g(case["g2"]), h])
+            lines.append(lib.model_call("cg.batchR" if withres else "cg.batch", bool(sort), cases[part[0]].get("facts") or [],
+                                        pols, reqs, enc_cases))
             owners.append(part)
+    # evenly spaced short resolver histories as single lines, BEFORE the batch lines (lib keeps the first lines of a runner
+    # for the vm_compute cross-check and thins out later ones)
+    picked = []
+    gf = lambda x: [bool(x["strict"]), x["policy"], x["ttl"]]  # noqa: E731
+    for j, (mspec, mcopy, r1, r2, hfull) in (singles[::max(1, len(singles) // XS_SINGLE)] if _XS_LEFT[0] > 0 else []):
+        one = lib.model_call("cg.runR", bool(sort), mspec, mcopy, gf(cases[j]["g1"]), gf(cases[j]["g2"]), r1, r2,
+                             cases[j].get("facts") or [], hfull)
+        if len(one) < 3000 and _XS_LEFT[0] > 0:
+            picked.append((j, one))
+            _XS_LEFT[0] -= 1
+    single_outs = lib.run_model(RUNNER, [l for _, l in picked]) if picked else []
     out = [None] * len(cases)
     for part, o in zip(owners, lib.run_model(RUNNER, lines, chunk=1, procs=12)):
         for j, m in zip(part, lib.dec(o)):
             out[j] = m
+    for (j, _), o in zip(picked, single_outs):
+        if lib.dec(o) != out[j]:
+            out[j] = {"runner_inconsistent": "cg.runR and cg.batchR answer differently", "single": lib.dec(o), "batch": out[j]}
     return out
 
 
@@ -833,16 +907,19 @@ def has_nonjson(x):
 
 
 def impl_only(case):
-    """histories the Coq model does not speak about (it has no role resolver and only JSON values): judged on the
-    implementation alone — engine with the cache vs its uncached twin — which is the direct reading of the property"""
-    if case["g1"].get("resolver") is not None or case["g2"].get("resolver") is not None:
-        return "resolver"
+    """histories the Coq model does not speak about (JSON values only; resolvers: what cg.runR decodes, see
+    resolver_unmodelled): judged on the implementation alone — engine with the cache vs its uncached twin — which is
+    the direct reading of the property"""
     if case.get("lits"):
         return "nonjson"
     if case.get("judge") == "impl":
         return case.get("why", "impl-only")
     if has_nonjson([op[2] for op in case["h"] if op[0] == "e"]):
         return "nonjson"
+    if has_resolver(case):
+        return resolver_unmodelled(case)
+    if any(op[0] in RESOLVER_OPS for op in case["h"]):
+        return "resolver-op-without-resolver"
     return None
 
 
@@ -925,17 +1002,32 @@ def check_cases(chk, cases, replay=False):
                                   "fixed finding F26); in a POLICY literal it means the policy tag (etag) no longer separates two "
                                   "policies (hypothesis tag_inj)" if impl_only(c) == "nonjson" else "")
                                + ("; the engines have a role resolver: the uncached twin uses the same resolver object"
-                                  if impl_only(c) == "resolver" else ""))
+                                  if has_resolver(c) else ""))
             continue
         # 2. correspondence with the model
         if m is None:
             why = impl_only(c)
             chk.count("judged_on_implementation_only:" + why)
+            if has_resolver(c):
+                chk.count("resolver_histories:implementation_only")
+                rh = chk.extra.setdefault("resolver_histories", {"model_judged": 0, "model_judged_with_resolver_edits": 0,
+                                                                 "implementation_only": {}})
+                rh["implementation_only"][why] = rh["implementation_only"].get(why, 0) + 1
             chk.extra.setdefault("families_without_model_comparison", {})
             chk.extra["families_without_model_comparison"][why] = chk.extra["families_without_model_comparison"].get(why, 0) + 1
             continue
+        withres = has_resolver(c)
+        thms = THEOREMS_R if withres else THEOREMS
+        if withres:
+            rh = chk.extra.setdefault("resolver_histories", {"model_judged": 0, "model_judged_with_resolver_edits": 0,
+                                                             "implementation_only": {}})
+            rh["model_judged"] += 1
+            chk.count("resolver_histories:model_judged")
+            chk.count("resolver_histories:model_judged:" + str(c.get("fam", "?")))
+            if any(op[0] in RESOLVER_OPS for op in c["h"]):
+                rh["model_judged_with_resolver_edits"] += 1
         if not (isinstance(m, list) and len(m) == 2 and len(m[0]) == nev and len(m[1]) == nev):
-            chk.corr_break("model runner: unexpected answer shape", strip(c), impl=res, model=m, theorems=THEOREMS)
+            chk.corr_break("model runner: unexpected answer shape", strip(c), impl=res, model=m, theorems=thms)
             continue
         if any(x[1] == ["Ood"] for x in m[0]) or any(x == ["Ood"] for x in m[1]):
             chk.count("ood")
@@ -947,11 +1039,13 @@ def check_cases(chk, cases, replay=False):
             mcd = mc[1] if isinstance(mc[1], dict) else ["Raise"]
             mud = mu if isinstance(mu, dict) else ["Raise"]
             if canon(iu) != canon(mud):
-                diff = (i, "the UNCACHED engine's Decision differs from Engine.guard_eval")
+                diff = (i, "the UNCACHED engine's Decision differs from Engine.guard_eval"
+                        + (" on the resolver's answer (CacheGuardR.run_refR)" if withres else ""))
             elif bool(r["hit"]) != bool(mc[0]):
                 diff = (i, "cache hit/miss differs (implementation: %s, model: %s)" % ("hit" if r["hit"] else "miss", "hit" if mc[0] else "miss"))
             elif canon(ic) != canon(mcd):
-                diff = (i, "the cached engine's Decision differs from CacheGuard.run_cached")
+                diff = (i, "the cached engine's Decision differs from "
+                        + ("CacheGuardR.run_cachedR" if withres else "CacheGuard.run_cached"))
             if diff:
                 break
         if diff:
@@ -960,10 +1054,11 @@ def check_cases(chk, cases, replay=False):
                 ev_pos = [i for i, op in enumerate(c["h"]) if op[0] == "e"][diff[0]]
                 cut = dict(strip(c))
                 cut["h"] = c["h"][:ev_pos + 1]
-                chk.corr_break("Guard with cache vs CacheGuard model: %s at evaluation #%d (operation #%d: %s); "
+                chk.corr_break("Guard with cache vs %s model: %s at evaluation #%d (operation #%d: %s); "
                                "cached and uncached answers of the implementation agree on the whole history"
-                               % (diff[1], diff[0], ev_pos, describe(c["h"][ev_pos])),
-                               cut, impl=res[:diff[0] + 1], model=[m[0][:diff[0] + 1], m[1][:diff[0] + 1]], theorems=THEOREMS)
+                               % ("CacheGuardR (role resolver per guard)" if withres else "CacheGuard",
+                                  diff[1], diff[0], ev_pos, describe(c["h"][ev_pos])),
+                               cut, impl=res[:diff[0] + 1], model=[m[0][:diff[0] + 1], m[1][:diff[0] + 1]], theorems=thms)
 
 
 # --------------------------------------------------------------------------
@@ -1099,7 +1194,8 @@ def replacement_cases():
 
 
 # --------------------------------------------------------------------------
-# engines with a role resolver (judged on the implementation alone)
+# engines with a role resolver (cached vs uncached on the implementation = the violation; hit pattern and Decisions
+# against CacheGuardR.run_cachedR / run_refR through cg.batchR = the correspondence)
 # --------------------------------------------------------------------------
 RPOL = {
     "ra": {"algorithm": "deny-overrides", "rules": [
@@ -1676,8 +1772,9 @@ def run(chk):
                 "histories on LRU(1) strict, LRU(64) no TTL, dict, pickling; all unordered pairs of the %d-request pool; A->B->A replacement scripts; a "
                 "seeded sample of words across capacities {0,1,2,64}, TTL {None,0,2}, both type modes, one/two guards; seeded "
                 "random histories of length <= 60 over 14 policies (first-applicable / deny- / permit-overrides, policy sets, "
-                "obligations that fail and succeed, rel, between). Engines WITH A ROLE RESOLVER (judged on the implementation alone, no model "
-                "comparison): StaticRoleResolver over a small hierarchy, sync and async, that can be switched off (expand raises; "
+                "obligations that fail and succeed, rel, between). Engines WITH A ROLE RESOLVER (cached vs uncached on the implementation, "
+                "and hit flag + Decisions against the model with a resolver per guard, CacheGuardR.run_cachedR / run_refR through the "
+                "runner entry cg.batchR, resolver edits included): StaticRoleResolver over a small hierarchy, sync and async, that can be switched off (expand raises; "
                 "Guard falls back to the subject's own roles); policies testing subject.roles by hasAny/hasAll/in/==/contains; "
                 "alphabet {eval r1..r3, grant / revoke the edge manager->employee in place, resolver down, resolver up, set A, "
                 "set B, clear, tick}: all histories of length <= 3 (thorough <= 4) for 4 one-engine configurations (LRU(2), "
@@ -1743,8 +1840,20 @@ def run(chk):
         "role resolver: read as part of 'the same engine configuration' — the uncached engine the statement compares with holds "
         "the same current policy AND the same collaborator objects at the same point of the history, so a resolver whose answers "
         "change (hierarchy edited in place, backend down and up again) is inside the quantifier: the cached engine must follow it, "
-        "which the code does by putting the EXPANDED roles into the key. These histories are judged on the implementation alone "
-        "(the Coq model has no resolver; Engine.build_env takes the resolver's answer as an argument)",
+        "which the code does by putting the EXPANDED roles into the key. MODEL-JUDGED since CacheGuardRRun.v (entries cg.runR / "
+        "cg.batchR of the cacheguard runner, decoding into CacheGuardR.run_cachedR / run_refR of theorem "
+        "c08_transparent_with_resolver): every history of the families resolver-enum and resolver-random, and any corpus / replay "
+        "history, whose guards have no resolver or a StaticRoleResolver over a str -> [str] hierarchy behind an on/off switch "
+        "(sync or async flavour: same answers), with the operations grant / revoke (hierarchy edited in place), down / up "
+        "(expand raises: own roles kept) between evaluations and subjects' roles lists of str — hit flag, cached Decision and "
+        "uncached Decision are compared with the model like the resolver-free histories (a difference only there is a broken "
+        "correspondence; cached != uncached on the implementation stays the violation). The model reads an edited resolver as an "
+        "oracle whose state is the list of resolver configurations in force at the evaluations still to come (Guard calls "
+        "expand exactly once per evaluation, before the cache lookup); static expansion is C18's Roles.expand. Resolver shapes "
+        "the entry cannot decode (any other resolver class or configuration key, non-str role names or hierarchy) stay judged "
+        "on the implementation alone and are counted under coverage.resolver_histories.implementation_only (none are generated "
+        "at present). A dozen short resolver histories per run are also sent as single cg.runR lines: they must give the "
+        "batch's answer and are what the vm_compute cross-check of the extracted runner re-evaluates inside Coq",
         "time.monotonic is scripted (constant during an operation); clock readings and TTLs are small integers, exact in floats",
         "sequential histories: no set_policy runs during an evaluation (C09 covers the races)",
         "policy tags: hypothesis tag_inj of the theorems (distinct policies of a history have distinct etags) is TESTED on the "
@@ -1776,12 +1885,13 @@ def run(chk):
     if not quick:
         for c1 in (cfg(("lru", 1), TTL, True), cfg(("lru", BIG), None, False), cfg(("dict",), TTL, False), cfg(("pickle",), 0, True)):
             fams.append(enum_family(c1, qsel, 4, "enum1b"))
-    # engines with a role resolver (implementation vs implementation)
+    # engines with a role resolver (implementation vs implementation, and both against the CacheGuardR model)
     r_one = [rcfg(("lru", 2), TTL), rcfg(("lru", BIG), None, down1=True, asyn=True), rcfg(("dict",), TTL, graph1=GRAPH_FLAT),
              rcfg(("pickle",), TTL, down1=True, strict=True)]
     r_two = [rcfg(("lru", BIG), TTL, two="graph"), rcfg(("lru", 2), None, two="policy", asyn=True),
              rcfg(("dict",), TTL, two="graph", graph1=GRAPH_FLAT, graph2=GRAPH_FULL, down1=True)]
-    fams.append(resolver_enum(r_one + r_two, 3 if quick else 4))
+    # first in line: its single cg.runR lines are then among the runner's first lines, which lib.extraction_crosscheck keeps
+    fams.insert(0, resolver_enum(r_one + r_two, 3 if quick else 4))
     for fam in fams:
         for ch in chunks(fam, 6000):
             if stop_early(chk):
